@@ -23,13 +23,28 @@ TEXTS = ['plain text', ' padded ', '(note)', '<tech>', '(half', 'half>', 'Ünïc
 
 
 class Gen:
-    def __init__(self, rng):
+    def __init__(self, rng, odd_message_ids=False):
         self.rng = rng
         self.n = 0
+        self.issued = {}
+        # histories that are also fed to collections keep ascending numeric message IDs
+        self.odd_message_ids = odd_message_ids
 
     def fresh(self, prefix):
+        """A new ID.  IDs are opaque strings: now and then the new one is a look-alike of one already
+        in use (padded with blanks, other letter case, with a comma) or is blank (``<storyID/>``)."""
+        r = self.rng
+        issued = self.issued.setdefault(prefix, [])
+        c = r.random()
+        if issued and c < 0.05:
+            base = r.choice(issued)
+            return r.choice([base + ' ', ' ' + base, base + '\n', base.swapcase(), base + ',x', 'x,' + base])
+        if c < 0.065:
+            return BLANK
         self.n += 1
-        return f'{prefix}{self.n}'
+        v = f'{prefix}{self.n}'
+        issued.append(v)
+        return v
 
     def timing(self):
         r = self.rng
@@ -56,8 +71,10 @@ class Gen:
         if r.random() < 0.3:
             extra.append(E('itemEdDur', text=str(r.randrange(100))))
         if r.random() < 0.2:
-            extra.append(E('mosExternalMetadata', E('mosSchema', text='s'),
-                           E('mosPayload', E('studioCommand', E('text', text='a note'), attrs={'type': 'note'}))))
+            note = E('studioCommand', E('text', text='a note'), attrs={'type': 'note'})
+            if r.random() < 0.4:
+                note = E('wrapper', E('studioCommand', E('text', text='a cue'), attrs={'type': 'cue'}), note)   # nested: still the item's note
+            extra.append(E('mosExternalMetadata', E('mosSchema', text='s'), E('mosPayload', note)))
         if r.random() < 0.15:
             # vendor payload with look-alikes: a nested <item>, a nested <p>, a nested <story>
             extra.append(E('mosExternalMetadata', E('mosSchema', text='vendor'),
@@ -89,8 +106,10 @@ class Gen:
     def ro(self, n_stories):
         r = self.rng
         stories = [self.new_story() for _ in range(n_stories)]
-        return B.ro_doc(stories, pattern=r.choice(B.PATTERNS), message_id='1',
-                        ed_start=r.choice([None, None, '2021-03-04T09:00:00', '2020-02-29T23:59:30']))
+        doc = B.ro_doc(stories, pattern=r.choice(B.PATTERNS), message_id=r.choice(['1', '1', '1', '0', '007', '4294967296']) if self.odd_message_ids else '1',
+                       ed_start=r.choice([None, None, '2021-03-04T09:00:00', '2020-02-29T23:59:30']))
+        # the running order's own envelope varies like any other (roCreate first, fields missing, extras)
+        return vary_envelope(r, doc)
 
 
 def state_ids(state):
@@ -109,6 +128,10 @@ def pick_ref(rng, ids, p=0.8, allow_blank=True, allow_absent=False):
     c = rng.random()
     if ids and c < p:
         return rng.choice(ids)
+    if ids and c < p + 0.04:
+        # a reference that differs from an existing ID only by padding or letter case names nothing
+        base = rng.choice(ids)
+        return rng.choice([base + ' ', ' ' + base, base.swapcase(), base.strip() or 'Z'])
     opts = ['ZZ-unknown']
     if allow_blank:
         opts.append(BLANK)
@@ -152,12 +175,33 @@ def vary_envelope(rng, doc):
     return [doc[0], doc[1], doc[2], doc[3], kids]
 
 
+ODD_MESSAGE_IDS = [ABSENT, BLANK, 'abc', '12x', '007', '0']
+
+
+def odd_message_id(rng, doc):
+    """The envelope's messageID missing, blank, non-numeric or zero-padded (ASCII only: the model's
+    int() is stated on ASCII digit strings)."""
+    v = rng.choice(ODD_MESSAGE_IDS)
+    kids = []
+    for k in doc[4]:
+        if k[0] == 'messageID':
+            if v is ABSENT:
+                continue
+            k = E('messageID', text=v)
+        kids.append(k)
+    return [doc[0], doc[1], doc[2], doc[3], kids]
+
+
 def random_message(g, state, message_id, cls=None, p=0.8):
     """-> (class name, message tree) built against `state`, inside a varied envelope."""
     if cls is None and g.rng.random() < 0.04:
-        return 'RunningOrderEnd', vary_envelope(g.rng, B.ro_delete(message_id=str(message_id)))
-    cls, doc = _random_message(g, state, message_id, cls, p)
-    return cls, vary_envelope(g.rng, doc)
+        cls, doc = 'RunningOrderEnd', B.ro_delete(message_id=str(message_id))
+    else:
+        cls, doc = _random_message(g, state, message_id, cls, p)
+    doc = vary_envelope(g.rng, doc)
+    if g.odd_message_ids and g.rng.random() < 0.05:
+        doc = odd_message_id(g.rng, doc)
+    return cls, doc
 
 
 def _random_message(g, state, message_id, cls=None, p=0.8):
@@ -247,11 +291,14 @@ def _random_message(g, state, message_id, cls=None, p=0.8):
 
 
 def message_ids(rng, n):
-    """Ascending message IDs of mixed digit counts (crossing 9→10, 99→100 …)."""
-    start = rng.choice([2, 7, 8, 95, 98, 996, 5000])
+    """Ascending message IDs of mixed digit counts (crossing 9→10, 99→100 … 10^8, 10^9, 2^32, 2^63)."""
+    start = rng.choice([2, 7, 8, 95, 98, 996, 5000, 5000, 99999995, 999999994, 4294967290, 9223372036854775800])
     out = []
     cur = start
     for _ in range(n):
         out.append(cur)
-        cur += rng.choice([1, 1, 1, 2, 3, 11])
+        if rng.random() < 0.06:
+            cur = cur * rng.choice([9, 10, 11, 101]) + rng.randrange(10)      # a jump to a wider number
+        else:
+            cur += rng.choice([1, 1, 1, 2, 3, 11])
     return out
